@@ -128,20 +128,16 @@ class Sock6(vsim.FakeSock):
 
 
 class Host2(vsim.Host):
-    """a host with several sockets: every transport is kept"""
-
-    def __init__(self, sim, name, ip):
-        self.transports = []
-        super().__init__(sim, name, ip)
+    """a host with several sockets: `vsim` keeps every transport in `self.transports` (creation order = socket order);
+    `transport` (what `deliver` and the loopback use) stays the first one"""
 
     @property
     def transport(self):
-        return self.transports[0] if self.transports else None
+        return self.transports[0] if getattr(self, "transports", None) else None
 
     @transport.setter
     def transport(self, tr):
-        if tr is not None:
-            self.transports.append(tr)
+        pass
 
 
 def make_host(sim, layout):
